@@ -49,6 +49,7 @@ class Build:
         self.theorems = []
         self.fingerprint_drift = []
         self.axioms_reported = []
+        self.coqchk = None
 
     def run(self):
         lock = open(os.path.join(VERIF, ".build.lock"), "w")
@@ -123,6 +124,16 @@ class Build:
                     if "Axioms:" in self.assumptions:
                         self.proof_ok = False
                         self.proof_msg = "Print Assumptions reports axioms: " + " | ".join(self.axioms_reported)[:400]
+            # thorough tier: independent re-check of the compiled property files with coqchk
+            self.coqchk = None
+            if self.proof_ok and os.environ.get("VERIF_TIER_EFFECTIVE") == "thorough":
+                mods = " ".join("DS." + os.path.basename(x)[:-2] for x in pfiles)
+                rc, out = sh(f"timeout 3000 coqchk -silent -o $(grep '^-Q' _CoqProject | tr '\\n' ' ') {mods} 2>&1 | tail -25", cwd=COQ, timeout=3100)
+                ok = "Axioms: <none>" in out and "type-in-type: <none>" in out and "unsafe (co)fixpoints: <none>" in out and "positivity is assumed: <none>" in out
+                self.coqchk = "ok: no axioms, no type-in-type, no unsafe fixpoints, no assumed positivity" if ok else out[-600:]
+                if not ok:
+                    self.proof_ok = False
+                    self.proof_msg = "coqchk: " + out[-400:]
             # hygiene: forbidden vernacular anywhere in the development
             rc, out = sh("grep -rnE '\\b(Admitted|admit|Axiom|Parameter|Conjecture|Unset Guard|bypass_check|Admit Obligations)\\b' --include=*.v Model Spec Proofs Properties Extract | grep -v '^[^:]*:[0-9]*:\\s*(\\*' || true", cwd=COQ)
             if out.strip():
@@ -197,6 +208,7 @@ def main():
         print(json.dumps({"impl": i, "oracle": P.oracle(c, i)}, ensure_ascii=False)[:4000])
         return 0
 
+    os.environ["VERIF_TIER_EFFECTIVE"] = a.tier
     b = Build(a.prop)
     if not a.no_build:
         b.run()
@@ -359,6 +371,7 @@ def main():
             "trusted_base": TRUSTED_BASE,
             "theorems": b.theorems,
             "print_assumptions": ("%d x Closed under the global context" % b.assumptions.count("Closed under the global context")) + ("; OTHER OUTPUT: " + " | ".join(b.axioms_reported)[:2000] if b.axioms_reported else ""),
+            "coqchk": b.coqchk,
             "generated_tables_changed_this_run": b.generated_changed,
             "fingerprint_drift": b.fingerprint_drift,
             "programs": len(cases),
